@@ -339,6 +339,19 @@ func (m *Machine) callVx(fn *ssa.Function, a []Value) Value {
 		}
 		m.Env.Nodes[p] = n
 		return nil
+	case "vxReadAudit":
+		n := m.Env.node(m.Env.abs(m.mustStr(a[0], "vxReadAudit") + ".audit.json"))
+		if n == nil || n.C == nil {
+			return (*Value)(nil)
+		}
+		blob, ok := n.C.Data.(*JSONBlob)
+		if !ok {
+			return (*Value)(nil)
+		}
+		return deepCopy(blob.Snap)
+	case "vxFSDelete":
+		delete(m.Env.Nodes, m.Env.abs(m.mustStr(a[0], "vxFSDelete")))
+		return nil
 	case "vxFSMkdirAll":
 		ab := m.Env.abs(m.mustStr(a[0], "vxFSMkdirAll"))
 		for x := ab; ; x = filepath.Dir(x) {
